@@ -261,6 +261,9 @@ def rule_r5(p, res):
                 r.violation(k.methods[m], k.methods[m].node, "%s overrides %s" % (k.name, m))
 
 
+# rules of sibling properties over code paths this property's statement also quantifies over (DESIGN.md section 3, shared rules)
+ALSO = ['C04.R2', 'C06.R2', 'C08.R2', 'C09.R3']
+
 RULES = [rule_r1, rule_r2, rule_r3, rule_r4, rule_r5]
 
 WITNESSES = [
